@@ -44,6 +44,8 @@ const ELIGIBLE_NAMES: &[&str] = &[
     "Vault.t.\u{17f}ol.sol", "\u{130}.sol", "stra\u{df}e.sol", "\u{212a}.t.sol.x.sol",
     // names that differ only in letter case or in the spelling of a number; markup and bidirectional control characters
     "token.sol", "TOKEN.sol", "Vault_v1.sol", "Vault_v01.sol", "Vault_v001.sol", "Vault<T>.sol", "a&b.sol", "x\u{202e}y.sol", "\u{2066}z\u{2069}.sol", "a*b*.sol",
+    // names that look like placeholders of formatting or templating code
+    "{total}.sol", "{}.sol", "%s.sol", "$1.sol", "~a.sol",
 ];
 const TEST_NAMES: &[&str] = &["a.t.sol", "A.T.sol", "x.T.sol", "Token.t.sol", ".t.sol", "b.t.SOL.t.sol", "\u{130}.T.sol"];
 const OTHER_NAMES: &[&str] = &[
@@ -63,6 +65,13 @@ pub const POOL: &[&str] = &[
     "contract NoPragma { function f ( address t ) public { t . approve ( t , 1 ) ; } }\n",
     "pragma solidity 0.8.4 ;\ninterface I { function f ( ) external ; }\n",
     "pragma solidity 0.7.6 ;\nlibrary SafeMath { function add ( uint256 a , uint256 b ) internal pure returns ( uint256 ) { return a + b ; } }\npragma solidity 0.8.13 ;\ncontract Flat {\nusing SafeMath for uint256 ;\nfunction f ( uint256 a ) public returns ( uint256 ) {\nrequire ( a > 0 , \"a message that is longer than thirty-two bytes in total\" ) ;\nreturn a . add ( 1 ) ;\n}\n}\n",
+    // a literal U+FFFD REPLACEMENT CHARACTER in a comment (valid UTF-8, not a decoding error)
+    "pragma solidity ^0.8.0 ;\n// legacy header \u{fffd} kept as is\ncontract R { function f ( address t , uint256 a , uint256 b ) public { t . approve ( t , a / b * 3 ) ; } }\n",
+    // a U+FEFF inside a revert string whose length is 34 bytes with it and 31 without
+    "pragma solidity 0.7.6 ;\ncontract Z { function f ( uint256 a ) public { require ( a > 0 , \"a message of 31 bytes + one BOM\u{feff}\" ) ; } }\n",
+    // functions that override the functions of the interface in the pool (`interface I { function f ( ) external ; }`)
+    "pragma solidity 0.8.4 ;\ncontract V is I {\nfunction f ( ) public override { }\nfunction g ( uint256 a ) external override { }\nfunction h ( ) external { }\n}\n",
+    "pragma solidity 0.8.4 ;\ninterface IV { function g ( uint256 a ) external ; function h ( ) external ; }\n",
     // white space only (an empty source unit), with line feeds
     "\n\n\n \n\t\n\n",
     // classic-Mac line ends: a lone CR ends the line comment and separates tokens, but is not a line feed
@@ -318,6 +327,24 @@ pub fn materialize_with_links(entries: &[Entry], at: &Path, links: &Path) {
     materialize_with_links_inner(entries, at, links, &mut prefix_targets)
 }
 
+/// `target` written relative to the directory `from` (both absolute, under a common ancestor).
+fn relative_to(from: &Path, target: &Path) -> Option<PathBuf> {
+    let f: Vec<_> = from.components().collect();
+    let t: Vec<_> = target.components().collect();
+    let common = f.iter().zip(t.iter()).take_while(|(a, b)| a == b).count();
+    if common == 0 {
+        return None;
+    }
+    let mut out = PathBuf::new();
+    for _ in common..f.len() {
+        out.push("..");
+    }
+    for c in &t[common..] {
+        out.push(c.as_os_str());
+    }
+    Some(out)
+}
+
 fn materialize_with_links_inner(entries: &[Entry], at: &Path, links: &Path, prefix_targets: &mut Vec<PathBuf>) {
     for e in entries {
         let p = at.join(&e.name);
@@ -335,7 +362,9 @@ fn materialize_with_links_inner(entries: &[Entry], at: &Path, links: &Path, pref
                 };
                 std::fs::create_dir_all(&target).expect("create link target");
                 materialize_with_links_inner(children, &target, links, prefix_targets);
-                std::os::unix::fs::symlink(&target, &p).expect("symlink");
+                // every second link names its target relative to the directory the link lives in
+                let link_text = if n % 2 == 0 { relative_to(at, &target).unwrap_or_else(|| target.clone()) } else { target.clone() };
+                std::os::unix::fs::symlink(&link_text, &p).expect("symlink");
             }
         }
     }
